@@ -146,6 +146,14 @@ class Ctx(object):
                 raise MachineryError('vacuity: actions never taken in %s: %s' % (module, dead))
         return r
 
+    def validate_stateless(self, module, events, chunk=100000, **kw):
+        """validate() for oracle specs whose verdict on an event does not depend on earlier events: bounded batches (one JSON
+        file per TLC run has to stay loadable by the JVM); event numbers in the verdicts are those of the whole list."""
+        out = []
+        for i in range(0, len(events), chunk):
+            out += [(i + j, c) for (j, c) in self.validate(module, events[i:i + chunk], **kw)]
+        return out
+
     def validate(self, module, events, cfg=None, header=None, extra_env=None, timeout=3600,
                  depth_first=False, name='trace'):
         """Trace validation: write events as JSON, run the total trace spec, return verdict list.
